@@ -22,37 +22,39 @@ theorem readResponse_guards :
 
 /-- `lookupPeer.Command`: when not connected: Connect, state := connected, magic, connectCallback (only from
 `stateDisconnected`), and if the callback left the peer disconnected the command fails; then write + bounded read;
-every failure path calls `Close` (`LookupSync.command`: any failure ⇒ `conn := down`).
-Exactly two shapes are accepted until fixes/F36_lookup_peer_closes_on_error_reply.patch is committed: the current one
-(the reply is returned whatever it says: `commandR false`, finding `register-rejected-not-retried`, replayed) and the
-one with F36 (an `E_` reply closes the connection: `commandR true` = `command`). -/
-theorem command_shape :
-    (command = ["assign:initialState := lp.state", "call:Connect", "assign:lp.state = stateConnected", "call:Write",
-      "call:Close", "call:connectCallback", "call:WriteTo", "call:Close", "call:readResponseBounded", "call:Close"] ∧
-     commandGuards = ["assign initialState := lp.state", "if lp.state != stateConnected",
-      "assign lp.state = stateConnected", "if initialState == stateDisconnected", "if lp.state != stateConnected",
-      "if cmd == nil"]
-     ∨
-     command = ["assign:initialState := lp.state", "call:Connect", "assign:lp.state = stateConnected", "call:Write",
+every failure path calls `Close` (`LookupSync.command`: any failure ⇒ `conn := down`), and — F36, /repo abf2660 — a
+reply that starts with `E_` closes the connection too (`commandR true` = `command`). F36 is committed: ONLY this shape is
+accepted (audit B12). The shape before it (the reply is returned whatever it says: `commandR false`, finding
+`register-rejected-not-retried`, listed `fixed`) breaks this tie, and its replay
+corpus/C16/fixed/register_rejected.ops then fails as a VIOLATION. -/
+def commandShapeF36 : Prop :=
+    command = ["assign:initialState := lp.state", "call:Connect", "assign:lp.state = stateConnected", "call:Write",
       "call:Close", "call:connectCallback", "call:WriteTo", "call:Close", "call:readResponseBounded", "call:Close",
       "call:Close"] ∧
-     commandGuards = ["assign initialState := lp.state", "if lp.state != stateConnected",
+    commandGuards = ["assign initialState := lp.state", "if lp.state != stateConnected",
       "assign lp.state = stateConnected", "if initialState == stateDisconnected", "if lp.state != stateConnected",
-      "if cmd == nil", "if bytes.HasPrefix(resp, []byte(\"E_\"))"]) ∧
-    peerClose = ["assign:lp.state = stateDisconnected", "call:Close"] := by decide
+      "if cmd == nil", "if bytes.HasPrefix(resp, []byte(\"E_\"))"]
 
-/-- The read deadline (audit C9). Exactly two shapes are accepted until
-fixes/F39_lookup_peer_deadline_per_round_trip.patch is committed: the current one — `lookupPeer.Read` sets a fresh
-`time.Now()`-based deadline for EVERY Read, `Command` sets none: a drip-fed reply is never timed out (finding
-`slow-reply-holds-lookup-loop`, replayed) — and the one with F39: `Read` uses `lp.deadline`, which `Command` sets once
-before the magic write and once before each round trip (write + bounded read): a round trip takes at most 1 s. -/
+instance : Decidable commandShapeF36 := by unfold commandShapeF36; infer_instance
+
+theorem command_shape :
+    commandShapeF36 ∧ peerClose = ["assign:lp.state = stateDisconnected", "call:Close"] := by decide
+
+/-- COMPUTED from the regenerated facts: the `f36` parameter of `LookupMore.commandR` / `runR` for this tree;
+`Props.C16More.converges_with_rejections_this_tree` is stated over it -/
+def treeF36 : Bool := decide commandShapeF36
+
+theorem tree_f36 : treeF36 = true := by decide
+
+/-- The read deadline (audit C9; F39, /repo 233d375): `lookupPeer.Read` uses `lp.deadline`, which `Command` sets once
+before the magic write and once before each round trip (write + bounded read): a round trip takes at most 1 s. F39 is
+committed: ONLY this shape is accepted (audit B12). The shape before it — `Read` sets a fresh `time.Now()`-based deadline
+for EVERY Read, `Command` sets none: a drip-fed reply is never timed out (finding `slow-reply-holds-lookup-loop`, listed
+`fixed`, replay corpus/C16/fixed/slow_drip_reply.ops) — breaks this tie. -/
 theorem read_deadline_shape :
-    (peerRead = ["call:SetReadDeadline", "call:Now", "call:Read"] ∧
-     commandDeadline = ["call:Write", "call:WriteTo", "call:readResponseBounded"])
-    ∨
-    (peerRead = ["call:SetReadDeadline", "call:Read"] ∧
-     commandDeadline = ["assign:lp.deadline = time.Now().Add(time.Second)", "call:Write",
-       "assign:lp.deadline = time.Now().Add(time.Second)", "call:WriteTo", "call:readResponseBounded"]) := by decide
+    peerRead = ["call:SetReadDeadline", "call:Read"] ∧
+    commandDeadline = ["assign:lp.deadline = time.Now().Add(time.Second)", "call:Write",
+      "assign:lp.deadline = time.Now().Add(time.Second)", "call:WriteTo", "call:readResponseBounded"] := by decide
 
 /-- `connectCallback` (tree with fixes/F14_connect_callback_skips_exiting.patch): IDENTIFY round trip, then under the
 read locks every topic's `Exiting()` is tested before its channel map is read and every channel's `Exiting()` before its
@@ -77,26 +79,28 @@ theorem lookupLoop_shape :
     lookupHasChannel = ["assign t, ok := n.topicMap[topicName]", "if !ok || t.Exiting()", "return return false",
       "assign c, ok := t.channelMap[channelName]", "return return ok && !c.Exiting()"] := ⟨rfl, rfl, rfl⟩
 
-/-- `GetTopic` on a new topic: lookupd channel query and `GetChannel` for each non-`#ephemeral` name happen
-*before* `t.Start()`; skipped while loading metadata and (F26, /repo 1121881) while nsqd is exiting — then the topic is
-handed out CLOSED and nothing is pre-created or started (`LookupSync.precreate` describes an nsqd that is neither
-loading nor exiting).
-Exactly two shapes are accepted until fixes/F35_precreate_validates_channel_names.patch is committed: the current one
-(every other name is created verbatim: `precreateG false`, finding `precreate-unvalidated-channel-name`, replayed) and
-the one with F35 (`IsValidChannelName` tested before `GetChannel`: `precreateG true` = `precreate`). -/
-theorem getTopic_precreate_before_start :
-    (getTopicPrecreate = ["call:NewTopic", "call:Close", "call:lookupdHTTPAddrs", "call:GetLookupdTopicChannels",
-      "call:HasSuffix", "call:GetChannel", "call:Start"] ∧
-     getTopicGuards = ["assign exiting := atomic.LoadInt32(&n.isExiting) == 1", "if exiting",
-      "if atomic.LoadInt32(&n.isLoading) == 1", "if len(lookupdHTTPAddrs) > 0",
-      "if strings.HasSuffix(channelName, \"#ephemeral\")"]
-     ∨
-     getTopicPrecreate = ["call:NewTopic", "call:Close", "call:lookupdHTTPAddrs", "call:GetLookupdTopicChannels",
+/-- `GetTopic` on a new topic: lookupd channel query and `GetChannel` for each non-`#ephemeral`, VALID name (F35, /repo
+d2805fe: `IsValidChannelName` is tested before `GetChannel`: `precreateG true` = `precreate`) happen *before*
+`t.Start()`; skipped while loading metadata and (F26, /repo 1121881) while nsqd is exiting — then the topic is handed out
+CLOSED and nothing is pre-created or started (`LookupSync.precreate` describes an nsqd that is neither loading nor
+exiting). F35 is committed: ONLY this shape is accepted (audit B12). The shape before it (every other name is created
+verbatim: `precreateG false`, finding `precreate-unvalidated-channel-name`, listed `fixed`) breaks this tie, and the
+harness cases `prex bad…` then report the created names as a VIOLATION. -/
+def precreateShapeF35 : Prop :=
+    getTopicPrecreate = ["call:NewTopic", "call:Close", "call:lookupdHTTPAddrs", "call:GetLookupdTopicChannels",
       "call:HasSuffix", "call:IsValidChannelName", "call:GetChannel", "call:Start"] ∧
-     getTopicGuards = ["assign exiting := atomic.LoadInt32(&n.isExiting) == 1", "if exiting",
+    getTopicGuards = ["assign exiting := atomic.LoadInt32(&n.isExiting) == 1", "if exiting",
       "if atomic.LoadInt32(&n.isLoading) == 1", "if len(lookupdHTTPAddrs) > 0",
-      "if strings.HasSuffix(channelName, \"#ephemeral\")", "if !protocol.IsValidChannelName(channelName)"]) := by
-  decide
+      "if strings.HasSuffix(channelName, \"#ephemeral\")", "if !protocol.IsValidChannelName(channelName)"]
+
+instance : Decidable precreateShapeF35 := by unfold precreateShapeF35; infer_instance
+
+theorem getTopic_precreate_before_start : precreateShapeF35 := by decide
+
+/-- COMPUTED: the `f35` parameter of `LookupSync.precreateG` for this tree (`Props.C16More.no_injection_this_tree`) -/
+def treeF35 : Bool := decide precreateShapeF35
+
+theorem tree_f35 : treeF35 = true := by decide
 
 /-- which lookupds `GetTopic` asks (`Lookupd.identified`): `lookupdHTTPAddrs()` takes every configured peer whose cached
 `Info.BroadcastAddress` is non-empty — set by a successful IDENTIFY, never cleared — and nothing else is tested: in
